@@ -3,7 +3,7 @@ pub mod anyhow {
     use vstd::prelude::*;
     #[verifier::external_body]
     pub struct Error { _e: u8 }
-    pub type Result<T> = core::result::Result<T, Error>;
+    pub type Result<T, E = Error> = core::result::Result<T, E>;
 }
 /// R3: `bail!`, `anyhow!(..)` produce an opaque error value
 #[verifier::external_body]
